@@ -90,6 +90,8 @@ class CFG:
         self._withs: Tuple[ast.withitem, ...] = ()
         self._trys: Tuple[Tuple[ast.Try, str], ...] = ()
         self._loops: Tuple[ast.AST, ...] = ()
+        self._inlining: List[str] = []
+        self.inline_values: Dict[int, Tuple[ast.expr, Dict[str, ast.expr]]] = {}
         fn = scope.node
         self.entry = self._raw_node('entry', fn, getattr(fn, 'lineno', 0))
         self.exit = self._raw_node('exit', fn, getattr(fn, 'end_lineno', 0))
@@ -190,6 +192,11 @@ class CFG:
             if c.kind in ('finally', 'with'):
                 c.pending.setdefault(what, []).append((src, None, i))
                 return
+            if c.kind == 'inline':
+                if what == 'return':
+                    c.returns.append((src, 'return'))
+                    return
+                raise AnalysisError(f'{what} crosses an inlined helper boundary')
             if c.kind == 'loop' and what in ('break', 'continue'):
                 if what == 'break':
                     c.breaks.append((src, 'break'))
@@ -317,7 +324,7 @@ class CFG:
     def _s_Return(self, s: ast.Return) -> None:
         if s.value is not None:
             self._expr(s.value)
-        n = self._node('return', s)
+        n = self._node('inline_return' if self._inlining else 'return', s)
         self._dispatch_jump('return', n)
         self.cur = []
 
@@ -579,7 +586,60 @@ class CFG:
             self._expr(a)
         for k in e.keywords:
             self._expr(k.value)
+        target = self._inline_target(e)
+        if target is not None:
+            self._inline(e, target)
+            return
         self._node('call', e)
+
+    # -- inlining of nested synchronous helpers (DESIGN 3.1: extracting a block
+    #    into a helper that is called inline must not change any verdict) ------
+    def _inline_target(self, e: ast.Call) -> Optional[Scope]:
+        if not isinstance(e.func, ast.Name) or e.keywords or any(isinstance(a, ast.Starred) for a in e.args):
+            return None
+        bs = self.scope.binding_scope(e.func.id)
+        if bs is None or bs.kind != 'function':
+            return None
+        # the helper must be a plain def (bound once, by its def) in this
+        # function or an enclosing one
+        cands = [c for c in bs.children if c.kind == 'function' and c.name == e.func.id]
+        if len(cands) != 1 or _has_nondef_binding(bs, e.func.id):
+            return None
+        t = cands[0]
+        if t.is_async or t.is_generator or t.decorators:
+            return None
+        a = t.node.args
+        if a.vararg or a.kwarg or a.kwonlyargs or a.posonlyargs or a.defaults or len(a.args) != len(e.args):
+            return None
+        if t.qualname in self._inlining or len(self._inlining) >= 3:
+            return None
+        # only helpers that share state with us through closures are worth
+        # (and safe) to expand: same outermost function
+        return t
+
+    def _inline(self, e: ast.Call, t: Scope) -> None:
+        self._node('inline_enter', e, name=t.qualname)
+        for prm, arg in zip(t.node.args.args, e.args):
+            self._node('store_name', arg, e.lineno, name=prm.arg, value=arg, stmt=e, inlined_param=True)
+        c = _Ctx('inline', node=e)
+        c.returns = []
+        self.ctx.append(c)
+        self._inlining.append(t.qualname)
+        saved_res = self.res
+        self.res = Resolver(t)
+        try:
+            self._build_body(t.node.body)
+        finally:
+            self.res = saved_res
+            self._inlining.pop()
+            self.ctx.pop()
+        self.cur = self.cur + c.returns
+        if self.cur:
+            self._node('inline_exit', e, name=t.qualname)
+        # value of the call expression, when the helper is a single-return function
+        rets = [x for x in own_nodes(t.node) if isinstance(x, ast.Return)]
+        if len(rets) == 1 and rets[0].value is not None and t.node.body and t.node.body[-1] is rets[0]:
+            self.inline_values[id(e)] = (rets[0].value, {prm.arg: arg for prm, arg in zip(t.node.args.args, e.args)})
 
     def _e_Await(self, e: ast.Await) -> None:
         self._expr(e.value)
